@@ -451,7 +451,13 @@ def recheck(a):
     random.Random("recheck/%s/%s" % (a.seed, pid)).shuffle(det)
     already = sum(1 for r in recs if r.get("check_version") == a.check_version and r.get("previous_outcome") in ("detected", "detected-by-hang"))
     det = det[:max(0, a.detected_sample - already)]
-    todo = surv + det
+    # survivors whose triage says the property cannot observe them at all (other property's function) go last: when time runs
+    # out (--deadline) they keep their earlier outcome and are counted as "not re-run"
+    tp = os.path.join(ROOT, "tools", "mutsweep_triage.json")
+    tri = json.load(open(tp)) if os.path.exists(tp) else {}
+    surv.sort(key=lambda r: 1 if tri.get(pid + ":" + r["key"], {}).get("class") == "OUT-OF-DOMAIN" else 0)
+    inscope = [r for r in surv if tri.get(pid + ":" + r["key"], {}).get("class") != "OUT-OF-DOMAIN"]
+    todo = inscope + det + surv[len(inscope):]
     print("%s: recheck %d survivors + %d of the detected" % (pid, len(surv), len(det)), flush=True)
     if not todo:
         return 0
@@ -476,7 +482,7 @@ def recheck(a):
         def work(w):
             while True:
                 with lock:
-                    if state["next"] >= len(todo):
+                    if state["next"] >= len(todo) or (a.deadline and time.strftime("%H:%M", time.gmtime()) >= a.deadline):
                         return
                     r = todo[state["next"]]; state["next"] += 1
                 rec = {k: r[k] for k in ("key", "pid", "file", "id", "op", "desc", "line", "col", "func", "orig_line", "mut_line") if k in r}
@@ -676,6 +682,7 @@ def main():
     ap.add_argument("--recheck", action="store_true", help="re-run ./check on all survivors and a sample of the detected mutants")
     ap.add_argument("--detected-sample", type=int, default=12)
     ap.add_argument("--check-version", default="v2")
+    ap.add_argument("--deadline", help="HH:MM (UTC, same day): stop handing out mutants at that time")
     ap.add_argument("--baseline", action="store_true", help="run ./check PID on an unchanged scratch tree with the current corpus")
     ap.add_argument("--probe", help="mutant selector 'file:line:desc-substring'")
     ap.add_argument("--case", action="append", default=[], help="op<TAB>args (literal \\t accepted)")
